@@ -1274,13 +1274,20 @@ class ElectrumX(SessionBase):
         dictionary with a merkle proof.'''
         height = non_negative_integer(height)
         cp_height = non_negative_integer(cp_height)
-        raw_header_hex = (await self.session_mgr.raw_header(height)).hex()
-        self.bump_cost(1.25 - (cp_height == 0))
-        if cp_height == 0:
-            return raw_header_hex
-        result = {'header': raw_header_hex}
-        result.update(await self._merkle_proof(cp_height, height))
-        return result
+        cost = 1.25 - (cp_height == 0)
+        # A reorg between reading the header and proving it would pair an orphaned header
+        # with a proof for the new chain; if one happened read both again
+        while True:
+            reorg_count = self.session_mgr._reorg_count
+            raw_header_hex = (await self.session_mgr.raw_header(height)).hex()
+            self.bump_cost(cost)
+            cost = 0
+            if cp_height == 0:
+                return raw_header_hex
+            result = {'header': raw_header_hex}
+            result.update(await self._merkle_proof(cp_height, height))
+            if reorg_count == self.session_mgr._reorg_count:
+                return result
 
     async def block_headers(self, start_height, count, cp_height=0):
         '''Return count concatenated block headers as hex for the main chain;
@@ -1296,12 +1303,18 @@ class ElectrumX(SessionBase):
         max_size = self.MAX_CHUNK_SIZE
         count = min(count, max_size)
         cost = count / 50
-        headers, count = await self.db.read_headers(start_height, count)
-        result = {'hex': headers.hex(), 'count': count, 'max': max_size}
-        if count and cp_height:
-            cost += 1.0
-            last_height = start_height + count - 1
+        # As for block_header(): the headers and their proof must be of the same chain
+        while True:
+            reorg_count = self.session_mgr._reorg_count
+            headers, n = await self.db.read_headers(start_height, count)
+            result = {'hex': headers.hex(), 'count': n, 'max': max_size}
+            if not (n and cp_height):
+                break
+            last_height = start_height + n - 1
             result.update(await self._merkle_proof(cp_height, last_height))
+            if reorg_count == self.session_mgr._reorg_count:
+                cost += 1.0
+                break
         self.bump_cost(cost)
         return result
 
